@@ -250,7 +250,7 @@ func Types(c explore.Chooser) *prog.Program { return TypesWith(c, TypesOpt{}) }
 func TypesWith(c explore.Chooser, opt TypesOpt) *prog.Program {
 	s := &S{C: c}
 	rootName := s.Pick("root.pkgname", "models", "pk", "m")
-	subName := s.Pick("sub.pkgname", "subpkg", "db", "x")
+	subName := s.Pick("sub.pkgname", "subpkg", "db", "x", "models")
 	rootPath := prog.Base() + "/" + rootName
 	subPath := rootPath + "/" + subName
 
@@ -304,7 +304,7 @@ func TypesWith(c explore.Chooser, opt TypesOpt) *prog.Program {
 	slotFirst := s.Pick("slot.position", "last", "first") == "first"
 	neighbourTag := s.Pick("union.neighbour-tag", "", "`json:\"name\"`", "`json:\"-\"`", "`json:\"n,omitempty\"`")
 	unionFieldTag := s.Pick("union.field-tag", "", "`json:\"-\"`", "`json:\"sh\"`", "`json:\"sh,omitempty\"`", "`gomacro:\"ignore\"`")
-	embedded := s.Pick("embedded", "none", "exported", "unexported", "tagged", "from-sub", "non-struct", "tagged-same-name", "tagged-omitempty", "unexported-in-member", "pointer", "shared-first-3")
+	embedded := s.Pick("embedded", "none", "exported", "unexported", "tagged", "from-sub", "non-struct", "tagged-same-name", "tagged-omitempty", "unexported-in-member", "pointer", "shared-first-3", "refers-back", "other-file")
 	reexport := s.Pick("root-const-of-sub-enum", "no", "yes")
 	style := s.Pick("decl.style", "separate", "grouped", "same-line")
 	dartRoot := s.Pick("dart.root", "under-go-src", "outside-go-src")
@@ -497,6 +497,14 @@ func TypesWith(c explore.Chooser, opt TypesOpt) *prog.Program {
 		add("type Invoice struct {\n\tBase3\n\tTotal int\n}")
 		add("type Customer struct {\n\tBase3\n\tEmail string\n}")
 		embField = "\tInv   Invoice\n\tCust  Customer\n"
+	case "refers-back":
+		// an embedded struct declared before the struct embedding it, and referring back to it
+		add("type Base struct {\n\tCreated int\n\tOwner   string\n\tKids    []Item\n}")
+		embField = "\tBase\n"
+	case "other-file":
+		// the embedded struct is declared outside the analysed file and used nowhere else
+		b.WriteString("type Base struct {\n\tCreated int\n\tOwner   string\n}\n\n")
+		embField = "\tBase\n"
 	case "from-sub":
 		embField = "\tsubpkg.Base\n"
 	case "non-struct":
